@@ -47,6 +47,26 @@ def main():
                 except Exception as e:
                     fails.append({'check': 'likelihood after a simulation on the same object is the sum over all rows',
                                   'rows': nrows, 'threads': threads, 'history': hist, 'got': f'{type(e).__name__}: {str(e)[:200]}'})
+    # the likelihood is the one of the point it was ASKED at: also for points outside the bounds declared on the parameters (trial points
+    # of a line search); the two entry points and the closed form agree there
+    for lb, ub, theta in ((-0.2, 0.2, 0.5), (0.0, None, -0.3), (None, 0.1, 0.4), (-0.2, 0.2, 0.1)):
+        n += 1
+        try:
+            x = np.arange(1.0, 8.0)
+            w = 0.5 + (np.arange(7) % 3)
+            d = db.Database('c04bnd', pd.DataFrame({'x': x, 'w': w}))
+            b = Beta('b', 0.05, lb, ub, 0)
+            bg = BIOGEME(d, {'log_like': -(b * Variable('x') - 1.0) ** 2, 'weight': Variable('w')}, parameters=Parameters())
+            want = float(np.sum(-w * (theta * x - 1.0) ** 2))
+            got = float(bg.calculate_likelihood([theta], scaled=False))
+            got_s = float(bg.calculate_likelihood([theta], scaled=True))
+            got_d = float(bg.calculate_likelihood_and_derivatives([theta], scaled=False).function)
+            if max(abs(got - want), abs(got_s * 7 - want), abs(got_d - want)) > 1e-9 * abs(want):
+                fails.append({'check': 'likelihood at a point outside the declared bounds is the likelihood of that point', 'bounds': [lb, ub],
+                              'point': theta, 'expected': want, 'got': {'calculate_likelihood': got, 'scaled x N': got_s * 7, 'with_derivatives': got_d}})
+        except Exception as e:
+            fails.append({'check': 'likelihood at a point outside the declared bounds is the likelihood of that point', 'bounds': [lb, ub],
+                          'point': theta, 'got': f'{type(e).__name__}: {str(e)[:200]}'})
     print(json.dumps({'cases': n, 'failures': fails[:12]}))
     return 1 if fails else 0
 
